@@ -163,6 +163,13 @@ def register(pid, **kw):
     CHECKS[pid] = kw
 
 
+def c07_on_fatal_other(vc, spec, res, c, recs):
+    """The C07 harness running for another property (C10): a death in the replay phase is C07's business."""
+    res.obs["c07-harness-child-died"] = res.obs.get("c07-harness-child-died", 0) + 1
+
+
+
+
 # ---------------------------------------------------------------------------
 # IRC-level monitors over the shared history engine (in-package ircserver harness)
 
@@ -216,10 +223,12 @@ def c01_post_run(vc, scr, spec, res, children):
                                            "what": "history seed %s: output/state digest differs between two processes (GOMAXPROCS 8 vs 1): %s vs %s" % (seed, dg, ds[1][seed]),
                                            "witness": {"gen": {"Seed": int(seed)}}})
     res.obs["cross_process_histories_compared"] = compared
+    if compared == 0:
+        res.broken.append({"why": "no history was compared across processes (the pairs did not run the same seeds)"})
 
 
 def c01_seed_env(k, n):
-    return {"GOMAXPROCS": "1" if k % 2 else "8", "VERIF_SEED_PAIR": str(k // 2)}
+    return {"GOMAXPROCS": "1" if k % 2 else "8", "VERIF_SEED_PAIR": str(k // 2), "VERIF_C01_REVERSE": "1" if k % 2 else "0"}
 
 
 register("C01", title="replica determinism", engine="irc-history-engine",
@@ -254,6 +263,7 @@ register("C03", title="serialization is complete", engine="irc-history-engine", 
          technique="differential: instance vs. Unmarshal(Marshal(instance)), structure walk + behavioural continuation")
 register("C17", title="session lifecycle", engine="irc-history-engine", pkg="./internal/ircserver",
          parts=[{"test": "^TestVerifC17$", "children": {"quick": 8, "thorough": 16}, "cases": {"quick": 30, "thorough": 400}},
+                {"test": "^TestVerifC17Concurrent$", "children": {"quick": 2, "thorough": 8}, "cases": {"quick": 30000, "thorough": 400000}},
                 {"test": "^TestVerifIRC$", "children": {"quick": 8, "thorough": 16}, "cases": {"quick": 150, "thorough": 3000}},
                 {"pkg": ".", "test": "^TestVerifC17API$", "children": {"quick": 1, "thorough": 4}, "cases": {"quick": 10, "thorough": 100}},
                 {"cluster": True, "children": {"quick": 1, "thorough": 4}, "cases": {"quick": 1, "thorough": 3}, "race": {"quick": False, "thorough": False},
@@ -313,9 +323,30 @@ register("C09", title="LevelDB store honours LogStore / StableStore", pkg="./int
          technique="reference-model comparison after every operation; kill/reopen crash points in a child process")
 
 
-register("C19", title="time safeguard", pkg="./internal/timesafeguard",
+def c19_post_run(vc, scr, spec, res, children):
+    """The real measurement path also runs under the race detector: a racy write to the
+    measurements can drop the one that matters."""
+    paths = []
+    for c in children:
+        paths += _glob.glob(os.path.join(c.wd, "race*"))
+    reports = [r for r in parse_race_logs(paths) if "timesafeguard" in r["text"] and "verif_" not in (r["stacks"][0][0][1] if r["stacks"] and r["stacks"][0] else "")]
+    res.obs["race_reports_in_measurement_path"] = len(reports)
+    seen = set()
+    for r in reports:
+        fr = _inner_robust(r["stacks"][0]) if r["stacks"] else None
+        key = "race-in-measurement:" + (fr[0].split("/")[-1] if fr else "unknown")
+        if key in seen:
+            continue
+        seen.add(key)
+        res.violations.append({"t": "violation", "prop": "C19", "key": key,
+                               "what": "data race while the measurements of the peers are collected (a measurement can be lost, and with it the check of that peer)",
+                               "witness": {"report": r["text"][:2500]}})
+
+
+register("C19", title="time safeguard", pkg="./internal/timesafeguard", post_run=c19_post_run,
          parts=[{"test": "^TestVerifC19$", "children": {"quick": 8, "thorough": 16}, "cases": {"quick": 60000, "thorough": 1500000}},
-                {"test": "^TestVerifC19Real$", "children": {"quick": 4, "thorough": 16}, "cases": {"quick": 12, "thorough": 60}}],
+                {"test": "^TestVerifC19Real$", "children": {"quick": 4, "thorough": 16}, "cases": {"quick": 12, "thorough": 60}},
+                {"test": "^TestVerifC19Real$", "race": True, "may_die": True, "children": {"quick": 2, "thorough": 8}, "cases": {"quick": 14, "thorough": 60}}],
          timeout={"quick": 300, "thorough": 1800}, level="exploration",
          rule="synthetic measurements generated from a true clock offset (both signs, microseconds to hours, values within 1ms of the 2s election "
               "timeout), request and response delays and 0-4 peers of which some do not answer, handed to synchronizedWithNetwork; oracle independent of "
@@ -355,11 +386,14 @@ register("C02", title="compaction / snapshot / restore are invisible", pkg=".",
 
 
 register("C10", title="retried POST is not applied twice", pkg=".",
-         parts=[{"test": "^TestVerifC10$", "children": {"quick": 8, "thorough": 16}, "cases": {"quick": 40, "thorough": 400}}],
+         env={"ROBUSTIRC_TESTING_ENABLE_PANIC_COMMAND": "1"},
+         parts=[{"test": "^TestVerifC10$", "children": {"quick": 8, "thorough": 16}, "cases": {"quick": 40, "thorough": 400}},
+                {"test": "^TestVerifC07$", "children": {"quick": 4, "thorough": 8}, "cases": {"quick": 5, "thorough": 30}, "on_fatal": c07_on_fatal_other}],
          timeout={"quick": 400, "thorough": 2400}, level="exploration",
          rule="in-process node (real stores, FSM, single-voter raft, real API on a loopback listener): clients POST, then repeat the same (session, client "
-              "message id) 1-3 times, interleaved with other sessions' traffic; also after QUIT, after an entry typed message-of-death, after snapshot+restart, "
-              "and through the API of a replica built from the same log. Oracle: the raft log holds exactly one entry per (session, id), every retry is "
+              "message id) 1-3 times, interleaved with other sessions' traffic; also after QUIT, after an entry typed message-of-death, after a snapshot that folds everything "
+              "+ restart, after an in-place raft.Restore, and through the API of a replica built from the same log; plus the crash harness of C07 (a real PANIC "
+              "in a child process, restart, replay) for the marker set by a message of death. Oracle: the raft log holds exactly one entry per (session, id), every retry is "
               "acknowledged, the marker is equal on node and replica, an observer receives each payload once. evaluations = retry rounds + payloads; "
               "distinct = (where, repeats, session alive)",
          floor={"quick": 200, "thorough": 3000},
